@@ -7,7 +7,7 @@
 // str_to_chars!(s) == s.chars().collect::<Vec<char>>()
 #[verifier::external_body]
 pub fn str_to_chars(s: &str) -> (r: Vec<char>)
-    ensures r@ == s@,
+    ensures r@ == s@, r@.len() <= isize::MAX,
 { s.chars().collect::<Vec<char>>() }
 
 // chars_to_string!(c) == c.iter().collect::<String>()
@@ -16,18 +16,94 @@ pub fn chars_to_string(c: &[char]) -> (r: String)
     ensures r@ == c@,
 { c.iter().collect::<String>() }
 
-pub open spec fn is_ws(c: char) -> bool { c == ' ' || c == '\t' || c == '\n' || c == '\r' }
+// White_Space as char::is_whitespace sees it (std trims exactly these); uninterpreted, with the
+// one fact the proofs need: a quotation mark, a bracket, a letter are not white space.
+pub uninterp spec fn is_ws(c: char) -> bool;
 
-// what str::trim returns: the sub-sequence between the first and last non-whitespace character
-// (std trims Unicode White_Space; the claims below only use: it is a contiguous sub-sequence,
-//  it is empty iff nothing else is left, and a non-empty result keeps its first and last characters)
+pub axiom fn axiom_not_ws()
+    ensures !is_ws('"'), !is_ws('('), !is_ws(')'), !is_ws('['), !is_ws(']'), !is_ws('$'), !is_ws('.'), !is_ws(',');
+
+// what str::trim returns: the text without its leading and trailing white space
 pub open spec fn is_trim_of(r: Seq<char>, s: Seq<char>) -> bool {
-    exists|i: int, j: int| 0 <= i <= j <= s.len() && r == s.subrange(i, j)
+    exists|i: int, j: int| trim_at(r, s, i, j)
+}
+pub open spec fn trim_at(r: Seq<char>, s: Seq<char>, i: int, j: int) -> bool {
+    &&& 0 <= i <= j <= s.len()
+    &&& r == s.subrange(i, j)
+    &&& forall|k: int| 0 <= k < i ==> is_ws(#[trigger] s[k])
+    &&& forall|k: int| j <= k < s.len() ==> is_ws(#[trigger] s[k])
+}
+
+// a non-white-space character of s survives trimming
+pub proof fn lemma_trim_keeps(r: Seq<char>, s: Seq<char>, k: int)
+    requires is_trim_of(r, s), 0 <= k < s.len(), !is_ws(s[k]),
+    ensures r.len() > 0, r.len() <= s.len(),
+{
+    let (i, j) = choose|i: int, j: int| trim_at(r, s, i, j);
+    assert(trim_at(r, s, i, j));
+    if k < i { assert(is_ws(s[k])); }
+    if k >= j { assert(is_ws(s[k])); }
+}
+
+pub proof fn lemma_trim_len(r: Seq<char>, s: Seq<char>)
+    requires is_trim_of(r, s),
+    ensures r.len() <= s.len(),
+{
+    let (i, j) = choose|i: int, j: int| trim_at(r, s, i, j);
+    assert(trim_at(r, s, i, j));
 }
 
 pub assume_specification<'a>[ str::trim ](s: &'a str) -> (r: &'a str)
-    ensures is_trim_of(r@, s@);
+    ensures is_trim_of(r@, s@), r@.len() <= s@.len();
 
 // TRUSTED(T3): char::is_ascii_digit
 pub assume_specification[ char::is_ascii_digit ](c: &char) -> (r: bool)
     ensures r == ('0' <= *c && *c <= '9');
+
+// R10: `&s[1..]` on a &str.  std panics unless byte 1 is a char boundary, i.e. unless the
+// first character is one byte long (ASCII).  TRUSTED(T3).
+#[verifier::external_body]
+pub fn str_skip_first_byte(s: &str) -> (r: &str)
+    requires s@.len() >= 1, (s@[0] as u32) < 128,
+    ensures r@ == s@.subrange(1, s@.len() as int),
+{ &s[1..] }
+
+// TRUSTED(T3): std string / slice primitives used by the parsers
+pub assume_specification<T: Clone>[ <[T]>::to_vec ](s: &[T]) -> (r: Vec<T>)
+    ensures r@.len() == s@.len();
+
+// R11 targets: total functions (they cannot panic); their results are left unspecified except where noted
+#[verifier::external_body]
+pub fn str_starts_with_lit(s: &str, p: &str) -> (r: bool) { s.starts_with(p) }
+#[verifier::external_body]
+pub fn str_starts_with_string(s: &str, p: &String) -> (r: bool) { s.starts_with(p.as_str()) }
+#[verifier::external_body]
+pub fn str_starts_with_char(s: &str, p: char) -> (r: bool) { s.starts_with(p) }
+#[verifier::external_body]
+pub fn str_ends_with_lit(s: &str, p: &str) -> (r: bool) { s.ends_with(p) }
+#[verifier::external_body]
+pub fn str_ends_with_char(s: &str, p: char) -> (r: bool)
+    ensures r ==> s@.len() > 0,
+{ s.ends_with(p) }
+
+// TRUSTED(T3): str::parse::<i64/f64> returns Ok or Err and does not panic
+#[verifier::external_type_specification]
+#[verifier::external_body]
+pub struct ExParseFloatError(core::num::ParseFloatError);
+#[verifier::external_type_specification]
+#[verifier::external_body]
+pub struct ExParseIntError(core::num::ParseIntError);
+#[verifier::external_trait_specification]
+pub trait ExFromStr: Sized {
+    type ExternalTraitSpecificationFor: core::str::FromStr;
+    type Err;
+    fn from_str(s: &str) -> Result<Self, Self::Err>;
+}
+pub assume_specification<F: core::str::FromStr>[ str::parse::<F> ](s: &str) -> (r: Result<F, F::Err>);
+// byte lengths: only "is it zero" is used by the parsers
+pub assume_specification[ String::len ](s: &String) -> (r: usize)
+    ensures (r == 0) == (s@.len() == 0);
+
+// TRUSTED(T3): Chars::last is Some exactly when characters remain
+pub assume_specification<'a>[ <core::str::Chars<'a> as Iterator>::last ](c: core::str::Chars<'a>) -> (r: Option<char>)
+    ensures (r is Some) == (vstd::std_specs::iter::IteratorSpec::remaining(&c).len() > 0);
